@@ -20,6 +20,8 @@ MODULES = ['Numerics.py', 'Spectrum_mod.py', 'LowPass/LowPass.py', 'Integration.
            'Misc.py', 'Godambe.py', 'Demes/Demes.py', 'Demes/DemesUtil.py', 'Demes/__init__.py']
 # functions that return a wrapper forwarding its positional / keyword arguments to the function they are given
 WRAPPERS = {'make_extrap_func', 'make_extrap_log_func', 'make_anc_state_misid_func'}
+# functions outside Demes/ whose control-flow skeleton is emitted too
+FLOW_ALSO = {'Spectrum.from_demes'}
 ALIASING_METHODS = {'ravel', 'reshape', 'transpose', 'view', 'swapaxes', 'squeeze', 'filled', 'diagonal', 'astype_nocopy', '__array__'}   # may return views
 # functions of numpy that return their (first) argument itself, or a view of it, for at least some argument types
 _ALIASING_NUMPY = {'asarray', 'asanyarray', 'ascontiguousarray', 'asfortranarray', 'asfarray', 'asarray_chkfinite', 'atleast_1d', 'atleast_2d',
@@ -162,7 +164,7 @@ def join_states(states):
             if v: out[k] = set(out.get(k, ())) | set(v)
     return out
 
-def analyse(fn, summaries=None, outer=None, qual=None, nested_out=None, want_ret=False):
+def analyse(fn, summaries=None, outer=None, qual=None, nested_out=None, want_ret=False, want_flow=False):
     """effect summary of one function.
     summaries : {callee name as written at the call site: (positional parameter names, set of parameters it may modify, set of
                 parameters its return value may alias)} (interprocedural step: passing an alias of an argument to a parameter the
@@ -192,10 +194,13 @@ def analyse(fn, summaries=None, outer=None, qual=None, nested_out=None, want_ret
     F = {}                 # local names bound to library functions (function tables `[f, g][i]`, wrappers `make_extrap_func(f)`)
     loops = []             # enclosing loops: states at `break` / `continue`
     def R(e, A): return alias_roots(e, A, summ, F)
-    def event(lineno, text, roots):
+    def record(lineno, text, roots):
         t = '%d: %s' % (lineno, text)
         if t not in muts: muts.append(t)
         mutated.update(roots)
+    sink = [record]            # where mutation events go (the skeleton builder redirects them)
+    def event(lineno, text, roots):
+        sink[0](lineno, text, roots)
     def fun_refs(e):
         """call-site names of the library functions the value of `e` may be, or may forward its arguments to"""
         if isinstance(e, (ast.Name, ast.Attribute)):
@@ -273,6 +278,37 @@ def analyse(fn, summaries=None, outer=None, qual=None, nested_out=None, want_ret
                 if fr: F[tt.id] = set(F.get(tt.id, ())) | fr
             if r: A[tt.id] = set(r)
             else: A.pop(tt.id, None)
+    def transfer(s, A):
+        """events and rebinding of a simple statement (augmented assignment, assignment, del)"""
+        if isinstance(s, ast.AugAssign):
+            b = base_name(s.target)
+            roots = set(A.get(b) or ())
+            if isinstance(s.target, ast.Name): roots -= scalars
+            if roots and not is_fresh_entry(s.target):
+                event(s.lineno, '%s %s=' % (ast.unparse(s.target), type(s.op).__name__), roots)
+        elif isinstance(s, (ast.Assign, ast.AnnAssign)):
+            targets = s.targets if isinstance(s, ast.Assign) else [s.target]
+            # all targets are bound to the value as seen BEFORE the statement
+            before = dict(A)
+            for t in targets:
+                if isinstance(t, ast.Name):
+                    r = R(s.value, before) if s.value is not None else set()
+                    fr = fun_refs(s.value) if s.value is not None else set()
+                    if fr: F[t.id] = set(F.get(t.id, ())) | fr
+                    if r: A[t.id] = set(r)
+                    else: A.pop(t.id, None)
+                else:
+                    tmp = dict(before); assign(t, s.value, tmp, True)
+                    for k in set(tmp) | set(before):
+                        if tmp.get(k) != before.get(k):
+                            if tmp.get(k): A[k] = tmp[k]
+                            else: A.pop(k, None)
+        elif isinstance(s, ast.Delete):
+            for tt in s.targets:
+                if isinstance(tt, ast.Subscript) and A.get(base_name(tt)) and not is_fresh_entry(tt):
+                    event(s.lineno, 'del %s' % ast.unparse(tt), A[base_name(tt)])
+                elif isinstance(tt, ast.Name):
+                    A.pop(tt.id, None)
     def visit(stmts, A):
         """state after the statements (None: no path falls through)"""
         for s in stmts:
@@ -292,35 +328,8 @@ def analyse(fn, summaries=None, outer=None, qual=None, nested_out=None, want_ret
                 continue
             # mutation events first (evaluated with the alias set before this statement's own rebinding)
             for e in own_exprs(s): scan_calls(e, A)
-            if isinstance(s, ast.AugAssign):
-                b = base_name(s.target)
-                roots = set(A.get(b) or ())
-                if isinstance(s.target, ast.Name): roots -= scalars
-                if roots and not is_fresh_entry(s.target):
-                    event(s.lineno, '%s %s=' % (ast.unparse(s.target), type(s.op).__name__), roots)
-            elif isinstance(s, (ast.Assign, ast.AnnAssign)):
-                targets = s.targets if isinstance(s, ast.Assign) else [s.target]
-                # all targets are bound to the value as seen BEFORE the statement
-                before = dict(A)
-                for t in targets:
-                    if isinstance(t, ast.Name):
-                        r = R(s.value, before) if s.value is not None else set()
-                        fr = fun_refs(s.value) if s.value is not None else set()
-                        if fr: F[t.id] = set(F.get(t.id, ())) | fr
-                        if r: A[t.id] = set(r)
-                        else: A.pop(t.id, None)
-                    else:
-                        tmp = dict(before); assign(t, s.value, tmp, True)
-                        for k in set(tmp) | set(before):
-                            if tmp.get(k) != before.get(k):
-                                if tmp.get(k): A[k] = tmp[k]
-                                else: A.pop(k, None)
-            elif isinstance(s, ast.Delete):
-                for tt in s.targets:
-                    if isinstance(tt, ast.Subscript) and A.get(base_name(tt)) and not is_fresh_entry(tt):
-                        event(s.lineno, 'del %s' % ast.unparse(tt), A[base_name(tt)])
-                    elif isinstance(tt, ast.Name):
-                        A.pop(tt.id, None)
+            if isinstance(s, (ast.AugAssign, ast.Assign, ast.AnnAssign, ast.Delete)):
+                transfer(s, A)
             elif isinstance(s, ast.Return):
                 if s.value is not None and R(s.value, A):
                     t = '%d: return %s' % (s.lineno, ast.unparse(s.value)[:40])
@@ -367,7 +376,163 @@ def analyse(fn, summaries=None, outer=None, qual=None, nested_out=None, want_ret
                     fin = visit(s.finalbody, join_states([A, hentry]))
                     A = None if A is None else fin
         return A
+    # ---------------------------------------------------------------- control-flow skeleton (Lean side: Driver/Memo.lean `arun`)
+    def build_flow():
+        """skeleton of the function over NAMES (identity alias map: every name stands for the object it holds): which names a simple
+        statement rebinds to a fresh value / to a value that may be the object other names hold, through which names it writes.
+        Loops containing `break` / `continue` and `try` bodies are flattened into sequences of optional statements (every path of the
+        real control flow is a path of the skeleton).  Names that cannot reach a write are pruned.  Returns (nested tuples, number
+        of names); names 0 … k-1 are the parameters."""
+        allnames = set(params) | {n.id for n in ast.walk(fn) if isinstance(n, ast.Name)}
+        ID = {n: {n} for n in allnames}
+        ntemp = [0]
+        def seqs(xs):
+            xs = [x for x in xs if x != ('skip',)]
+            if not xs: return ('skip',)
+            out = xs[-1]
+            for x in xs[-2::-1]:
+                out = ('stop',) if x == ('stop',) else ('seq', x, out)
+            return out
+        def opt(x): return ('skip',) if x == ('skip',) else ('ite', x, ('skip',))
+        def events_of(exprs, A):
+            got = set()
+            sink[0] = lambda ln, text, roots: got.update(roots)
+            try:
+                for e in exprs: scan_calls(e, A)
+            finally:
+                sink[0] = record
+            return [('mutate', n) for n in sorted(got)]
+        def simple(s):
+            A = {k: set(v) for k, v in ID.items()}
+            got = set()
+            out = events_of(own_exprs(s), A)
+            if isinstance(s, (ast.AugAssign, ast.Assign, ast.AnnAssign, ast.Delete)):
+                sink[0] = lambda ln, text, roots: got.update(roots)
+                try:
+                    transfer(s, A)
+                finally:
+                    sink[0] = record
+                out += [('mutate', n) for n in sorted(got)]
+                changed = sorted(k for k in set(A) | set(ID) if A.get(k, set()) != ID.get(k, set()))
+                if len(changed) == 1:
+                    x = changed[0]
+                    out.append(('alias', x, sorted(A[x])) if A.get(x) else ('fresh', x))
+                elif changed:
+                    # simultaneous rebinding (tuple targets): through temporaries
+                    tmps = {}
+                    for x in changed:
+                        if A.get(x):
+                            ntemp[0] += 1; tmps[x] = '%%tmp%d' % ntemp[0]
+                            out.append(('alias', tmps[x], sorted(A[x])))
+                    for x in changed:
+                        out.append(('alias', x, [tmps[x]]) if x in tmps else ('fresh', x))
+            elif isinstance(s, (ast.Return, ast.Raise)):
+                out.append(('stop',))
+            return seqs(out)
+        def has_jump(stmts):
+            for st in stmts:
+                for n in ast.walk(st):
+                    if isinstance(n, (ast.Break, ast.Continue)): return True
+            return False
+        def flat(stmts):
+            """every simple statement optional, in program order; inner loops stay loops (of optional statements)"""
+            out = []
+            for st in stmts:
+                if isinstance(st, (ast.FunctionDef, ast.AsyncFunctionDef, ast.ClassDef, ast.Break, ast.Continue, ast.Pass)): continue
+                if isinstance(st, (ast.For, ast.AsyncFor, ast.While)):
+                    out.append(opt(seqs(events_of(own_exprs(st), ID))))
+                    out.append(('loop', seqs([opt(seqs(events_of(own_exprs(st), ID)))] + flat(st.body))))
+                    out += flat(st.orelse)
+                elif isinstance(st, ast.If):
+                    out.append(opt(seqs(events_of(own_exprs(st), ID)))); out += flat(st.body) + flat(st.orelse)
+                elif isinstance(st, (ast.With, ast.AsyncWith)):
+                    out.append(opt(seqs(events_of(own_exprs(st), ID)))); out += flat(st.body)
+                elif isinstance(st, ast.Try) or type(st).__name__ == 'TryStar':
+                    out += flat(st.body) + flat(st.orelse)
+                    for h in st.handlers: out += flat(h.body)
+                    out += flat(st.finalbody)
+                else:
+                    out.append(opt(simple(st)))
+            return out
+        def skel(stmts):
+            out = []
+            for st in stmts:
+                if isinstance(st, (ast.FunctionDef, ast.AsyncFunctionDef, ast.ClassDef, ast.Pass)): continue
+                if isinstance(st, (ast.Break, ast.Continue)):
+                    raise T.TranslateError('%s: break/continue outside a flattened loop' % fn.name)
+                if isinstance(st, (ast.For, ast.AsyncFor, ast.While)):
+                    head = seqs(events_of(own_exprs(st), ID))
+                    if has_jump(st.body) or has_jump(st.orelse):
+                        out.append(head); out.append(('loop', seqs([opt(head)] + flat(st.body)))); out += flat(st.orelse)
+                    else:
+                        out.append(head)
+                        out.append(('loop', seqs([skel(st.body)] + ([head] if isinstance(st, ast.While) else []))))
+                        if st.orelse: out.append(skel(st.orelse))
+                elif isinstance(st, ast.If):
+                    out.append(seqs(events_of(own_exprs(st), ID)))
+                    out.append(('ite', skel(st.body), skel(st.orelse)))
+                elif isinstance(st, (ast.With, ast.AsyncWith)):
+                    out.append(seqs(events_of(own_exprs(st), ID))); out.append(skel(st.body))
+                elif isinstance(st, ast.Try) or type(st).__name__ == 'TryStar':
+                    normal = seqs([skel(st.body), skel(st.orelse)])
+                    exceptional = seqs(flat(st.body) + [seqs([('ite', skel(h.body), ('skip',)) for h in st.handlers])])
+                    out.append(('ite', normal, exceptional))
+                    if st.finalbody: out.append(skel(st.finalbody))
+                else:
+                    out.append(simple(st))
+            return seqs(out)
+        tree_ = skel(fn.body)
+        # prune: names that cannot reach a write
+        def walk(t):
+            yield t
+            if t[0] in ('seq', 'ite'):
+                yield from walk(t[1]); yield from walk(t[2])
+            elif t[0] == 'loop':
+                yield from walk(t[1])
+        nodes = list(walk(tree_))
+        relevant = {t[1] for t in nodes if t[0] == 'mutate'}
+        while True:
+            more = set()
+            for t in nodes:
+                if t[0] == 'alias' and t[1] in relevant: more |= set(t[2])
+            if more <= relevant: break
+            relevant |= more
+        def simp(t):
+            k = t[0]
+            if k in ('fresh', 'alias'):
+                if t[1] not in relevant: return ('skip',)
+                return t
+            if k == 'seq':
+                a_, b_ = simp(t[1]), simp(t[2])
+                if a_ == ('skip',): return b_
+                if b_ == ('skip',): return a_
+                if a_ == ('stop',): return a_
+                return ('seq', a_, b_)
+            if k == 'ite':
+                a_, b_ = simp(t[1]), simp(t[2])
+                if a_ == b_: return a_
+                return ('ite', a_, b_)
+            if k == 'loop':
+                a_ = simp(t[1])
+                return ('skip',) if a_ == ('skip',) else ('loop', a_)
+            return t
+        tree_ = simp(tree_)
+        index = {p_: i for i, p_ in enumerate(params)}
+        for t in walk(tree_):
+            for nm in ([t[1]] + list(t[2]) if t[0] == 'alias' else [t[1]] if t[0] in ('fresh', 'mutate') else []):
+                if nm not in index: index[nm] = len(index)
+        def num(t):
+            k = t[0]
+            if k == 'fresh': return '.fresh %d' % index[t[1]]
+            if k == 'mutate': return '.mutate %d' % index[t[1]]
+            if k == 'alias': return '.alias %d [%s]' % (index[t[1]], ', '.join(str(index[y]) for y in t[2]))
+            if k in ('skip', 'stop'): return '.' + k
+            if k == 'loop': return '.loop (%s)' % num(t[1])
+            return '.%s (%s) (%s)' % (k, num(t[1]), num(t[2]))
+        return num(tree_), len(index), sum(1 for _ in walk(tree_))
     visit(fn.body, A0)
+    if want_flow:
+        return params, muts, ret_alias, mutated, ret_roots, build_flow()
     if want_ret:
         return params, muts, ret_alias, mutated, ret_roots
     return params, muts, ret_alias, mutated
@@ -643,6 +808,22 @@ def generate():
             # inner functions (closures handed to the finite-difference / optimiser machinery): one row each
             for (q, npar, nm, nr) in nested:
                 effects.append(dict(module=rel, fn=q, mut=bool(nm), ret=bool(nr), ev=(nm + nr)[:4]))
+    out.append('/-- control-flow skeleton of a function with respect to one tracked argument object (see Driver/Memo.lean `arun`) -/\n'
+               'inductive Flow where\n  | fresh (x : Nat)\n  | alias (x : Nat) (ys : List Nat)\n  | mutate (x : Nat)\n  | skip\n  | stop\n'
+               '  | seq (a b : Flow)\n  | ite (a b : Flow)\n  | loop (a : Flow)\nderiving DecidableEq, Repr')
+    out.append('structure FlowInfo where\n  module : String\n  fn : String\n  params : List String\n  names : Nat\n  body : Flow\n  mutated : List String\nderiving Repr')
+    flows = []
+    for rel, path, src, tree in trees:
+        for qn, fn in audited(rel, tree):
+            if not (rel.startswith('Demes/') or qn in FLOW_ALSO): continue
+            pr = analyse(fn, summs[rel], qual=qn, want_flow=True)
+            body, nnames, size = pr[5]
+            own = param_names(fn)[1]
+            flows.append('  { module := %s, fn := %s, params := %s, names := %d,\n    body := %s,\n    mutated := %s }' % (
+                json.dumps(rel), json.dumps(qn), lstr(own), nnames, body, lstr([p_ for p_ in own if p_ in pr[3]])))
+    out.append('/-- skeletons of the demes front end (every function of Demes/Demes.py, Demes/DemesUtil.py, Demes/__init__.py, and\n'
+               '    Spectrum.from_demes); `mutated` = the parameters the Python data-flow analysis says may be modified -/')
+    out.append('def flows : List FlowInfo := [\n' + ',\n'.join(flows) + '\n]')
     out.append('def caches : List CacheInfo := [\n' + ',\n'.join(
         '  { module := %s, cache := %s, fn := %s, keyParams := %s, usedParams := %s, sufficient := %s, memo := %s }' % (
             json.dumps(c['module']), json.dumps(c['cache']), json.dumps(c['fn']), lstr(c['key']), lstr(c['used']), 'true' if c['sufficient'] else 'false',
